@@ -265,14 +265,17 @@ def guarded(ctx, fn, *a):
         return None
 
 
-def run_call(ctx, S, E, tag, family, argspec, pos, kws, vocab=0):
+def run_call(ctx, S, E, tag, family, argspec, pos, kws, vocab=0, direct=None):
+    if direct is None:
+        direct = ctx.rng.random() < 0.4                # prototype function or RemoteMethodSchema(**kwargs)
+    ctx.hist("schema_declared_by", "RemoteMethodSchema(**kwargs)" if direct else "prototype function")
     cons = []
     for n, cs, opt in argspec:
         c = S.build(cs)
         cons.append(S.schema.Optional(c, None) if opt else c)
-    res, w = S.call_trial([n for n, _, _ in argspec], cons, pos, [(n, x) for n, x in kws], vocab=vocab)
+    res, w = S.call_trial([n for n, _, _ in argspec], cons, pos, [(n, x) for n, x in kws], vocab=vocab, direct=direct)
     out = S.outcome_of(res)
-    case = dict(tag=tag, family=family, argspec=argspec, pos=pos, kws=kws)
+    case = dict(tag=tag, family=family, argspec=argspec, pos=pos, kws=kws, direct=direct)
     rec = dict(case=case, ms=ms_term(S, w.ms))
     calls = w.target.calls
     if len(calls) > 1:
